@@ -214,8 +214,9 @@ _typedefs = None
 
 
 def typedefs():
-    """{TypeName: ('struct', [field names]) | ('enum', [(variant, [field names] | n_fields)])}
-    parsed from every .rs file under /repo/crates and /repo/bin (simple item syntax only)"""
+    """{TypeName: [(module, 'struct', [field names]) | (module, 'enum', [(variant, [field names])])]}
+    parsed from every .rs file under /repo/crates and /repo/bin (simple item syntax only); a name
+    defined in several modules (`Error`) has several entries"""
     global _typedefs
     if _typedefs is not None:
         return _typedefs
@@ -224,9 +225,15 @@ def typedefs():
         for dp, _, files in os.walk(os.path.join(REPO, root)):
             if "/target" in dp:
                 continue
-            for f in files:
+            for f in sorted(files):
                 if f.endswith(".rs"):
-                    _scan_types(open(os.path.join(dp, f)).read(), out)
+                    stem = f[:-3]
+                    if stem in ("mod", "lib", "main"):
+                        stem = os.path.basename(dp) if stem == "mod" else os.path.basename(os.path.dirname(dp)).replace("-", "_")
+                    one = {}
+                    _scan_types(open(os.path.join(dp, f)).read(), one)
+                    for name, d in one.items():
+                        out.setdefault(name, []).append((stem,) + d)
     _typedefs = out
     return out
 
